@@ -18,16 +18,17 @@ from . import c20
 ID = "C11"
 RULE = ("clean motif networks from the harness builder: families {2-clique}, {2-,3-clique}, {2-,4-clique}, {3-clique, 4-cycle}, {2-clique, 5-cycle}, "
         "{2-clique, 6-cycle}, K4 ('diamond'), and custom motifs with two edge names (4-cycle with a chord: outer/inner edges; wedges a-x-b-y-c, alone and next to 2-cliques); 2..4 joint-degree classes, N 20..80 "
-        "(quick) / up to 400 (thorough), on average >= 2 motifs per vertex, ids shuffled or sorted by class; full-support targets (uniform, product of "
+        "(quick) / up to 400 (thorough), on average >= 2 motifs per vertex, ids shuffled or sorted by class, 30% of the networks with an extra class of vertices that are in no motif (joint degree all zero), 30% with list-valued annotations; full-support targets (uniform, product of "
         "marginals, assortative mix); parameters: limits omitted / CONVERGENCE_LIMIT in {0,1,5,50,500,5000} / SEARCH_LIMIT in {1,5,25}; 1 seed per case; 30% of the cases then point the SAME rewiring object at another network/target through its setters and rewire again; "
         "non-trivial = >= 10 accepted swaps and (>= 2 topologies or a corner of >= 2 edges); distinct = SHA-1 of (network, target, parameters, seed)")
 ASSUMPTIONS = ["inputs are clean by construction and re-checked before use (harness code)",
+               "how rewire() makes its working copy is not prescribed: a MonitoredGraph copy is followed as it is, any other nx.Graph is adopted (re-classed) at the first proposal, working on the given graph itself is reported at its first mutation",
                "rewire() is unwound by logical budgets (thorough: proposals <= 3000*limit + 200000 and a stall window of 100000 proposals without an accepted swap; quick: 60000 proposals, stall window 15000; draws <= 50x the proposal budget); everything observed up to a stop is checked, the run is recorded as stopped",
                "a shape failure is attributed to the known finding K1 only if every shape-breaking swap carries the K1 signature"]
 HEADLINE = ["runs", "accepted_swaps", "proposals", "sig_K1", "sig_ideal", "sig_other", "shape_fail_K1", "shape_ok_swaps", "self_loop_corner_proposals",
-            "default_limit_runs", "reused_object_runs", "list_annotation_runs", "stopped_runs", "drawset_invariant_evals", "input_events", "created_edges"]
-REQUIRED = {"quick": {"accepted_swaps": 2000, "self_loop_corner_proposals": 20, "default_limit_runs": 5, "hooks_installed": 100, "two_name_runs": 3},
-            "thorough": {"accepted_swaps": 100000, "self_loop_corner_proposals": 500, "default_limit_runs": 100, "hooks_installed": 1000, "two_name_runs": 50}}
+            "default_limit_runs", "reused_object_runs", "list_annotation_runs", "runs_with_isolated_vertices", "adopted_working_graphs", "stopped_runs", "drawset_invariant_evals", "input_events", "created_edges"]
+REQUIRED = {"quick": {"accepted_swaps": 2000, "self_loop_corner_proposals": 20, "default_limit_runs": 5, "hooks_installed": 100, "two_name_runs": 3, "runs_with_isolated_vertices": 10},
+            "thorough": {"accepted_swaps": 100000, "self_loop_corner_proposals": 500, "default_limit_runs": 100, "hooks_installed": 1000, "two_name_runs": 50, "runs_with_isolated_vertices": 100}}
 SHARD_TIMEOUT = {"quick": 900, "thorough": 14400}
 
 FAMILIES = {
@@ -116,7 +117,14 @@ def make_network(rng, fam, N, ids="shuffled", assort=0.0, graph_cls=MonitoredGra
         classes = [(x,) for x in rng.sample([1, 2, 3, 4], k)]
     else:
         classes = [tuple(c) for c in rng.sample(base, k)]
-    G, info = build_clean_network(rng, N, families, classes, assort=assort, ids=ids, graph_cls=graph_cls, scramble=rng.random() < 0.5)
+    weights = None
+    if rng.random() < 0.3:
+        # vertices that are in no motif at all (joint degree all zero) are part of a network too
+        ncol = len(classes[0])
+        classes = classes + [(0,) * ncol]
+        weights = [1.0] * (len(classes) - 1) + [0.25]
+    G, info = build_clean_network(rng, N, families, classes, class_weights=weights, assort=assort, ids=ids, graph_cls=graph_cls, scramble=rng.random() < 0.5)
+    info["isolated_vertices"] = sum(1 for v in G.nodes() if G.degree(v) == 0)
     if rng.random() < 0.3:
         # annotations as lists (hand-written / JSON-loaded joint degree sequences): mutable objects shared by a shallow graph copy
         from gcmpy import NetworkNames as NN
@@ -126,7 +134,7 @@ def make_network(rng, fam, N, ids="shuffled", assort=0.0, graph_cls=MonitoredGra
     return G, info, classes
 
 
-def run_rewire(res, G, names, T, params_extra, seed, budget_scale=1.0, ctx=None, cap=None, stall=None, reuse=None):
+def run_rewire(res, G, names, T, params_extra, seed, budget_scale=1.0, ctx=None, cap=None, stall=None, reuse=None, retarget=None):
     import gcmpy
     from gcmpy import ToolsNames as TN
     net = gcmpy.Network()
@@ -157,8 +165,14 @@ def run_rewire(res, G, names, T, params_extra, seed, budget_scale=1.0, ctx=None,
             m = reuse
 
             def _reconfigure():
-                m.network = net
-                m.ejks = tm
+                if retarget == "matrices-setter":
+                    # same network, same matrices object: only the target mapping is replaced through the matrices' own setter
+                    m.ejks.ejks = {n: T[n] for n in order}
+                elif retarget == "ejks-setter":
+                    m.ejks = tm
+                else:
+                    m.network = net
+                    m.ejks = tm
                 m.convergence_limit = limit
                 if TN.SEARCH_LIMIT in params_extra:
                     m.search_limit = params_extra[TN.SEARCH_LIMIT]
@@ -169,7 +183,7 @@ def run_rewire(res, G, names, T, params_extra, seed, budget_scale=1.0, ctx=None,
             returned = True
         except BudgetStop:
             work = [c for c in G.children if getattr(c, "role", "") == "working"]
-            H = work[-1] if work else None
+            H = work[-1] if work else (mon.foreign[-1] if mon.foreign else None)
     mon.final(H, returned)
     mon.returned = returned
     mon.obj = m
@@ -240,6 +254,8 @@ def run_case(case):
         res.count("two_name_runs")
     if info.get("list_annotations"):
         res.count("list_annotation_runs")
+    if info.get("isolated_vertices"):
+        res.count("runs_with_isolated_vertices")
     base = {"family": fam, "N": N, "classes": classes, "target": kind, "motifs": info["motifs"], "edges": G.number_of_edges(),
             "params": {str(k.value): v for k, v in extra.items()}, "seed": case["seed"]}
     quick = not case.get("thorough")
